@@ -1,9 +1,10 @@
 ---------------------------- MODULE MCLockOrder ----------------------------
 (* TLC sanity check of LockOrder.tla for small constants (the TLAPS proof covers all constants). *)
 EXTENDS LockOrder, TLC
-MCReq == (1 :> {1, 3}) @@ (2 :> {2, 3}) @@ (3 :> {1, 2, 3})
+MCReq == (1 :> {1, 3}) @@ (2 :> {2, 3}) @@ (3 :> {1, 2, 3}) @@ (4 :> {2})
 MCNoOne == 0
 AllDone == \A a \in Actors : st[a] = "done"
 \* no state but the final one is without a successor
 NoDeadlock == AllDone \/ ENABLED Next
+RootHolder == \A h \in Actors : rootmu = h => st[h] \in {"inroot", "reginroot"}
 =============================================================================
